@@ -115,7 +115,12 @@ func (P) Gen(rng *sim.Rng, tier string) *harness.Case {
 					ops = append(ops, harness.Op{K: "exit", E: rng.Intn(held), F: rng.Chance(0.3)})
 				}
 			default:
-				ops = append(ops, harness.Op{K: "tick", N: rng.U64Range(0, 3000)})
+				if rng.Chance(0.25) {
+					// clock fault: the wall clock is stepped BACK (NTP correction) while entries may be in flight
+					ops = append(ops, harness.Op{K: "back", N: rng.U64Range(1, 5000)})
+				} else {
+					ops = append(ops, harness.Op{K: "tick", N: rng.U64Range(0, 3000)})
+				}
 			}
 		}
 		c.Callers = [][]harness.Op{ops}
@@ -183,6 +188,11 @@ func (P) Exec(c *harness.Case) *harness.Outcome {
 		case "tick":
 			clk.AdvanceMs(op.N)
 			o.SimMs += op.N
+		case "back":
+			if d := op.N * 1e6; d < clk.NowNs() {
+				clk.SetNs(clk.NowNs() - d)
+				o.Fault("clock_stepped_back")
+			}
 		case "exit":
 			if op.E >= 0 && op.E < len(hs) && hs[op.E].e != nil {
 				h := hs[op.E]
